@@ -147,3 +147,21 @@ Proof. vm_compute. reflexivity. Qed.
 Example c04_tok_ok_malformed :
   forallb (tok_ok true) [TStart (xn "a") []; TChar (s "t"); TStart (xn "b") []; TEnd (xn "b"); TEnd (xn "a"); TEnd (xn "x"); TStart (xn "c") []] = true.
 Proof. vm_compute. reflexivity. Qed.
+
+(* ---- tie to the CURRENT sources of BeautifyXml and NewMapXmlSeq (xmlseq.go): go2v re-translates them on every run
+   (Gen/Pure_gen.v); GenProofs/PureG13.v proves that BeautifyXml is NewMapXmlSeq(doc) followed by MapSeq.XmlIndent(prefix,
+   indent) - the composition [beautify_is_indent_after_decode] is stated with - and that NewMapXmlSeq hands the document
+   and its single optional cast flag to the sequence parser, for ANY decoder / encoder (tied by the correspondence run). *)
+From Mxj Require Import Gen.Setters_gen Gen.PureSupport Gen.Pure_gen GenProofs.PureG5 GenProofs.PureG13.
+
+Theorem C04_beautify_code : forall (NewMapXmlSeq : str -> list bool -> res entries)
+    (XmlIndent : entries -> str -> str -> list str -> res str) st doc prefix indent,
+  fn_BeautifyXml NewMapXmlSeq XmlIndent st doc prefix indent
+  = of_res (bind (NewMapXmlSeq doc []) (fun x => XmlIndent x prefix indent [])).
+Proof. exact beautify_code. Qed.
+Print Assumptions C04_beautify_code.
+
+Theorem C04_new_map_xml_seq_code : forall (xmlSeqToMap : str -> bool -> res entries) st doc cast,
+  fn_NewMapXmlSeq xmlSeqToMap st doc cast = of_res (xmlSeqToMap doc (opt_flag cast)).
+Proof. exact new_map_xml_seq_code. Qed.
+Print Assumptions C04_new_map_xml_seq_code.
